@@ -270,8 +270,8 @@ def run(rep, tier, seed, pa):
         windowed = ri % 20 == 7
         if windowed:
             # fast mode only takes its windowed route on a continuum that is large enough (4+ annotators x 10+ units); below, it is the exact route
-            n = rng.choice([4, 4, 5])
-            units = gen.gen_units(rng, n, [rng.randrange(10, 14) for _ in range(n)], rng.choice(["perturbed", "perturbed", "random"]), gen.LABEL_SETS["abc"])
+            n = rng.choice([5, 5, 4])
+            units = gen.gen_units(rng, n, [rng.randrange(10, 14) if n == 5 else rng.randrange(13, 17) for _ in range(n)], rng.choice(["perturbed", "perturbed", "random"]), gen.LABEL_SETS["abc"])
             mode, identical = "fast", False
         # named levels: "high" (1 %) asks for thousands of samples, so it is drawn rarely and only in thorough
         prec = rng.choice([None, None, 0.9, 0.5, 0.3, 0.2, 0.1, "low", "low", "medium"] if tier == "thorough" else [None, None, 0.9, 0.5, 0.3, 0.2, "low"])
